@@ -427,8 +427,11 @@ def check_C02(ctx):
 
 
 BUILDER_CFG = "SPECIFICATION Spec\nCONSTANTS\n  MaxOps = %d\n%sINVARIANTS\n  %s\nCHECK_DEADLOCK FALSE\n"
-BUILDER_ALL = '  UnitKinds = {"set32", "set64", "getp", "getq"}\n  MaxPos = 3\n'
-BUILDER_STRUCT = '  UnitKinds = {}\n  MaxPos = 1\n'
+BUILDER_ALL = '  UnitKinds = {"set32", "set64", "getp", "getq"}\n  MaxPos = 3\n  Sigs = {}\n'
+BUILDER_STRUCT = '  UnitKinds = {}\n  MaxPos = 1\n  Sigs = {}\n'
+# blocks / loops whose signature has a parameter or a result (InstrSeqType::new), one unit kind, branches to them
+BUILDER_TYPED = '  UnitKinds = {"getp"}\n  MaxPos = 2\n  Sigs = {1, 2}\n'
+BUILDER_WALK = '  UnitKinds = {"set32", "set64", "getp", "getq"}\n  MaxPos = 3\n  Sigs = {1, 2}\n'
 
 
 def check_C15(ctx):
@@ -446,7 +449,12 @@ def check_C15(ctx):
     ctx.add_mc(r, "enum-build-histories(len<=%d)" % L)
     # longer histories: random walks
     D = 9 if q else 14
-    cfg = write_cfg("Enum_Builder_genD", BUILDER_CFG % (D, BUILDER_ALL, "EmitCase"))
+    cfg = write_cfg("Enum_Builder_genT", BUILDER_CFG % (3, BUILDER_TYPED, "EmitCase"))
+    r = tlc("Builder", cfg=cfg, workers=8, cont=False, capture=("CASE", hist + ".t"), name="enum-builder-typed")
+    ctx.add_mc(r, "enum-build-histories-with-typed-blocks(len<=3)")
+    cfg = write_cfg("MC_Builder_genT", BUILDER_CFG % (3 if q else 4, BUILDER_TYPED, "TreeShaped\n  FlatBalanced\n  BranchesInRange"))
+    model_check(ctx, "Builder", cfg=cfg, workers=8, label="design-builder-typed")
+    cfg = write_cfg("Enum_Builder_genD", BUILDER_CFG % (D, BUILDER_WALK, "EmitCase"))
     r = tlc("Builder", cfg=cfg, workers=8, cont=False, capture=("CASE", hist + ".b"), name="sim-builder", simulate="num=%d" % (4 if q else 60), extra=["-depth", str(D + 1), "-seed", str(ctx.seed)])
     ctx.add_mc(r, "simulate-build-histories(len<=%d)" % D)
     # structure-only histories one step longer (no units, positions 0..1): complete trees whose last step is a branch;
@@ -473,7 +481,10 @@ def check_C15(ctx):
         if len(full) > 250000:
             # thorough tier, length 4 with every unit kind: a seed-keyed sample keeps the run within half an hour
             full = [l for l in full if (zlib.crc32(l.encode()) + ctx.seed) % max(1, len(full) // 250000) == 0]
-        for line in full + struct + longer[::step]:
+        typed_all = [l for l in open(hist + ".t") if "tblock" in l]
+        typed = typed_all if not q else [l for l in typed_all if (zlib.crc32(l.encode()) + ctx.seed) % max(1, len(typed_all) // 8000) == 0]
+        ctx.notes["typed_block_histories"] = {"enumerated": len(typed_all), "replayed": len(typed)}
+        for line in full + typed + struct + longer[::step]:
             if line not in seen:
                 seen.add(line)
                 out.write(line)
@@ -546,7 +557,7 @@ def check_C05(ctx):
     q = ctx.quick()
     cfg = write_cfg("MC_ParseGate_gen", open(os.path.join(SPEC, "MC_ParseGate.cfg")).read().replace("MaxPayloads = 3", "MaxPayloads = %d" % 3))
     model_check(ctx, "ParseGate", cfg=cfg, workers=8, label="design-parse-gate")
-    n = 3000 if q else 40000
+    n = 3000 if q else 300000
     trace = os.path.join(ctx.work, "parse.ndjson")
     if os.path.exists(trace):
         os.remove(trace)
